@@ -340,10 +340,10 @@ func ExpectNewErr(s Script) string {
 // CheckC15 : divider contract and fail-safe.
 func CheckC15(s Script, tr Trace) error {
 	if tr.Spin {
-		if s.Fault == nil {
+		if !tr.SpinAfterFault {
 			return nil
 		}
-		return fmt.Errorf("with a divider fault plan the run never finished: %s", firstLine(tr.Deadlock))
+		return fmt.Errorf("after the divider fault the run never finished: %s", firstLine(tr.Deadlock))
 	}
 	if len(tr.DivViolations) > 0 {
 		v := tr.DivViolations[0]
@@ -390,11 +390,10 @@ func CheckC15(s Script, tr Trace) error {
 // CheckC16 (priority part).
 func CheckC16(s Script, tr Trace) error {
 	if tr.Spin {
-		for _, op := range s.Ops {
-			if op.K == "S" || op.K == "K" {
-				return fmt.Errorf("Stop()/cancel never completed: %s", firstLine(tr.Deadlock))
-			}
+		if tr.SpinAfterStop {
+			return fmt.Errorf("Stop()/cancel never completed: %s", firstLine(tr.Deadlock))
 		}
+		return nil
 	}
 	if tr.NewErr != "" || !tr.Stopped() {
 		return nil
